@@ -72,12 +72,12 @@ def gen_cases(run):
         L = rng.randrange(1, 60 if run.thorough else 36)
         w = rng.choice([[5, 1, 3, 6, 3, 4, 0.3], [4, 1, 1, 8, 4, 2, 0.1], [3, 1, 5, 3, 1, 3, 0.6], [6, 2, 4, 5, 2, 5, 0.2]])
         ops = gen_history(rng, B, L, w)
-        cap = rng.choice([0, 1, 2, 8])
+        cap = rng.choice([0, 1, 2, 8, 8, 9001, 9002])      # 9001 / 9002: the constructors ultragraph::new() and ultragraph::default()
         cases.append(Case("ugraph", [B], ops, {"cap": cap}))
         dist["capacities"][cap] = dist["capacities"].get(cap, 0) + 1
         adds = sum(1 for o in ops if o[0] in (0, 1)); rems = sum(1 for o in ops if o[0] == 2)
         if rems and adds > rems: dist["index_reuse_histories"] += 1
-        if adds > cap: dist["growth_histories"] += 1
+        if adds > (cap if cap < 9000 else 0): dist["growth_histories"] += 1
         for o in ops: dist["ops"][OPN[o[0]]] += 1
     dist["histories"] = len(cases)
     return cases, dist
